@@ -8,6 +8,7 @@ import re
 
 import cssutils
 from cssutils import css
+from cssutils.helper import normalize
 from cssutils.tokenize2 import Tokenizer
 
 LAYOUT = ('indent', 'indentClosingBrace', 'lineSeparator', 'listItemSpacer', 'paranthesisSpacer', 'propertyNameSpacer',
@@ -190,7 +191,7 @@ def eff_rule(r, p, used):
     if k == 'variables':
         if p['resolveVariables']:
             return None
-        vs = [(v[0], v[1], leaf_effect(v[2], p)) if v[0] == 'var' else v
+        vs = [(v[0], normalize(v[1]) if p['normalizedVarNames'] else v[1], leaf_effect(v[2], p)) if v[0] == 'var' else v
               for v in r[1] if v[0] == 'var' or (p['keepComments'] and v[1])]
         return ('variables', vs) if any(v[0] == 'var' for v in vs) else None
     if k == 'style':
